@@ -18,7 +18,9 @@ def claimed(pr):
     """Programs for which 'the same forwarding declared explicitly' is unambiguous."""
     if pr.route == 'param':
         return False            # partial objects: C19
-    if pr.context == 'ifelse_same' and pr.route in ('partial', 'helper'):
+    if pr.route == 'partial_helper' and len(pr.calls) > 1:
+        return False            # the first call hands the helper's name to functools.partial: "cannot be resolved" afterwards
+    if pr.context == 'ifelse_same' and pr.route in ('partial', 'helper', 'partial_helper'):
         return False            # the first call hands the callee's name to other code: "cannot be resolved" afterwards
     if pr.taint and grammar.taints(pr.taint) and pr.taint[2] == 'after' and pr.context in grammar.NESTED_CONTEXTS:
         return False            # execution order of a nested function is not static
@@ -81,7 +83,7 @@ def check_groups(groups, st):
         # partial route returns a partial (different declaration): grouped apart
         by = {}
         for got_p, ctx, route, ld in members:
-            by.setdefault('partial' if route == 'partial' else 'call', []).append((got_p, ctx, route, ld))
+            by.setdefault('partial' if route in ('partial', 'partial_helper') else 'call', []).append((got_p, ctx, route, ld))
         for _, ms in by.items():
             st.inc('metamorphic_groups')
             ref = ms[0]
